@@ -7,11 +7,13 @@ import RtVerif.Lemmas.C11
     T0  the regenerated facts say what the model assumes (form media types, sniffing window, how the
         window is filled and what is sniffed)
     T1  per payload kind: the bytes sent and the Content-Type header
-    T2  ∀ k: every GetBody result is exactly what is subsequently sent (state machine and whole build)
+    T2  ∀ k: every GetBody result is exactly what is subsequently sent (state machine and whole build);
+        no build leaves a pipe nobody writes to as the body (the F11d repair)
     T3  the parts of the multipart document: every field value and every file exactly once, with field
         name, base file name, declared-or-sniffed type, full content; independent of map iteration
         order and of how the upload chops its reads
-    S   the Spec holds for every input outside the recorded classes F11b–F11d; each class is real
+    S   the Spec holds for every input outside the recorded classes F11b, F11c; each class is real; the
+        former class F11d (value payload under multipart/form-data) now satisfies the Spec
 -/
 namespace RtVerif.C11
 open RtVerif Bytes
@@ -46,24 +48,27 @@ example : ∃ b, build ⟨fun _ => some none, fun _ => [], [], fun _ _ => []⟩
     ⟨[71, 69, 84], [97], .none, [], [], some 2⟩ rfl rfl rfl
   exact ⟨b, h, h2⟩
 
-/-- a value: exactly the bytes the registered producer wrote, under the chosen media type -/
+/-- a value: exactly the bytes the registered producer wrote, under the chosen media type — every
+media type, `multipart/form-data` included (the F11d repair: no hypothesis on the media type) -/
 theorem value_payload (env : Env) (i : Input) (enc : Bytes) (hp : i.payload = .value) (hf : hasForm i = false)
-    (hprod : env.produce i.mediaType = some (some enc)) (hm : i.mediaType ≠ multipartLit) :
+    (hprod : env.produce i.mediaType = some (some enc)) :
     ∃ b, build env i = .built b ∧ b.header = some i.mediaType ∧ b.sent = .bytes enc ∧ b.parts = none := by
   have hg : gatePasses env i.mediaType = true := by simp [gatePasses, hprod]
-  have hfiles : i.files.isEmpty = true := ((hasForm_false_iff i).mp hf).2
-  have hmp : isMultipart i = false := by
-    simp only [isMultipart, hfiles, facts_multipart]
-    simpa using fun h => hm h.symm
-  have hc := choose_value env i enc hp hf hprod hmp
+  have hc := choose_value env i enc hp hf hprod
   obtain ⟨st, gets, hb, _, _⟩ := build_of_choose env i _ hg hc (by simp)
   exact ⟨_, hb, finalHeader_mediaType i _ rfl, rfl, rfl⟩
 
 example : ∃ b, build ⟨fun _ => some (some [123, 125]), fun _ => [], [], fun _ _ => []⟩
     ⟨[80, 85, 84], [97, 47, 98], .value, [], [], some 3⟩ = .built b ∧ b.sent = .bytes [123, 125] := by
   obtain ⟨b, h, _, h2, _⟩ := value_payload ⟨fun _ => some (some [123, 125]), fun _ => [], [], fun _ _ => []⟩
-    ⟨[80, 85, 84], [97, 47, 98], .value, [], [], some 3⟩ [123, 125] rfl rfl rfl (by decide)
+    ⟨[80, 85, 84], [97, 47, 98], .value, [], [], some 3⟩ [123, 125] rfl rfl rfl
   exact ⟨b, h, h2⟩
+
+/-- the same under exactly `multipart/form-data`, with an auth writer asking three times -/
+example : ∃ b, build ⟨fun _ => some (some [123, 125]), fun _ => [], [], fun _ _ => []⟩
+    ⟨[80, 85, 84], multipartLit, .value, [], [], some 3⟩ = .built b ∧ b.sent = .bytes [123, 125] ∧
+      b.gets = [[123, 125], [123, 125], [123, 125]] :=
+  ⟨_, rfl, rfl, rfl⟩
 
 /-- a producer that fails: its error is returned, nothing is sent -/
 theorem value_producer_error (env : Env) (i : Input) (hp : i.payload = .value) (hf : hasForm i = false)
@@ -166,6 +171,13 @@ theorem getBody_is_what_is_sent (env : Env) (i : Input) (b : Built) (h : build e
 example : ∃ b, build ⟨fun _ => some none, fun _ => [], [66], fun bd ps => bd ++ ps.flatMap (·.body)⟩
     ⟨[80], multipartLit, .none, [([97], [[1], [2]])], [], some 3⟩ = .built b ∧ b.gets = [[66, 1, 2], [66, 1, 2], [66, 1, 2]] :=
   ⟨_, rfl, rfl⟩
+
+/-- For every input and every environment: the build never ends in a `GetBody()` call that does not
+return, and the body of a built request is never a pipe nobody writes to — the pipe is opened only
+where the multipart goroutine is started (`opensPipe`; this is what F11d violated). -/
+theorem build_never_hangs (env : Env) (i : Input) :
+    build env i ≠ .hang ∧ ∀ b, build env i = .built b → b.sent ≠ .never :=
+  build_no_hang env i
 
 /-! ## T3 — the parts -/
 
@@ -284,11 +296,7 @@ theorem spec_holds_outside_known (env : Env) (i : Input) (hk : known env i = non
           rw [value_producer_error env i hp hf hprod]
           simp [specOk, hkind, resultOf, failed]
         | some enc =>
-          have hm : i.mediaType ≠ multipartLit := by
-            intro hmt
-            simp [known, hkind, hmt] at hk
-            rw [hmt] at hprod; simp [hprod] at hk
-          obtain ⟨b, hb, hh, hs, hps⟩ := value_payload env i enc hp hf hprod hm
+          obtain ⟨b, hb, hh, hs, hps⟩ := value_payload env i enc hp hf hprod
           obtain ⟨hl, hall⟩ := getBody_is_what_is_sent env i b hb
           have hgets : authOk i (resultOf (.built b)) = true := by
             unfold authOk resultOf
@@ -376,7 +384,8 @@ theorem spec_holds_outside_known (env : Env) (i : Input) (hk : known env i = non
 def witnessF11b : Input := ⟨[80, 79, 83, 84], urlencodedLit, .none, [], [([102], [⟨[97], none, [104, 105], 0⟩])], none⟩
 /-- one field `a=1`, media type `a/b` (registered) -/
 def witnessF11c : Input := ⟨[80, 79, 83, 84], [97, 47, 98], .none, [([97], [[49]])], [], none⟩
-/-- a value payload under multipart/form-data (registered), with and without a GetBody call -/
+/-- the former F11d witness: a value payload under multipart/form-data (registered), with and without
+GetBody calls -/
 def witnessF11d (auth : Option Nat) : Input := ⟨[80, 79, 83, 84], multipartLit, .value, [], [], auth⟩
 
 theorem finding_F11b_real :
@@ -389,15 +398,23 @@ theorem finding_F11c_real :
       specOk witnessEnv.sniff (witnessEnv.produce witnessF11c.mediaType) witnessF11c (resultOf (build witnessEnv witnessF11c)) = false := by
   decide
 
-theorem finding_F11d_real (auth : Option Nat) :
-    known witnessEnv (witnessF11d auth) = some .F11d ∧
+/-- Regression of F11d on the repaired code: the former witness is outside every recorded class, the
+request is built, what is sent is the producer's output (`x`) under `multipart/form-data`, every
+GetBody result — any number of calls — is that output, and the Spec holds. -/
+theorem finding_F11d_repaired (auth : Option Nat) :
+    known witnessEnv (witnessF11d auth) = none ∧
+      (∃ b, build witnessEnv (witnessF11d auth) = .built b ∧ b.header = some multipartLit ∧ b.sent = .bytes [120] ∧
+        b.gets.length = auth.getD 0 ∧ ∀ g ∈ b.gets, g = [120]) ∧
       specOk witnessEnv.sniff (witnessEnv.produce (witnessF11d auth).mediaType) (witnessF11d auth)
-        (resultOf (build witnessEnv (witnessF11d auth))) = false := by
-  rcases auth with _ | _ | k
-  · decide
-  · decide
-  · -- any positive number of GetBody calls: the first one never returns
-    have hb : build witnessEnv (witnessF11d (some (k + 1))) = .hang := rfl
-    exact ⟨rfl, by rw [hb]; rfl⟩
+        (resultOf (build witnessEnv (witnessF11d auth))) = true := by
+  have hk : known witnessEnv (witnessF11d auth) = none := rfl
+  refine ⟨hk, ?_, spec_holds_outside_known _ _ hk⟩
+  obtain ⟨b, hb, hh, hs, _⟩ := value_payload witnessEnv (witnessF11d auth) [120] rfl rfl rfl
+  obtain ⟨hl, hall⟩ := getBody_is_what_is_sent _ _ b hb
+  refine ⟨b, hb, hh, hs, hl, ?_⟩
+  intro g hg
+  have := hall g hg
+  rw [hs] at this
+  simpa [sameAsSent] using this
 
 end RtVerif.C11
